@@ -16,7 +16,7 @@ variable (cfg : Cfg) (sfh : Bool)
 def Ty.FamT (t : Ty) : Prop :=
   match t with
   | .any | .undef | .dflt | .scalar | .scalarData | .numeric | .data | .richData | .bin | .str => True
-  | .int _ | .float _ _ | .bool _ | .tspan _ | .strVal _ | .regexp _ | .object _ => True
+  | .int _ | .float _ _ | .bool _ | .tspan _ | .tstamp _ | .strVal _ | .regexp _ | .object _ => True
   | .enum _ ci => ci = false
   | .array e r => ((match e with | .unit => True | _ => False) ∧ r.hi ≤ 0) ∨ Ty.FamT e
   | .hash k v r => ((match k with | .unit => True | _ => False) ∧ (match v with | .unit => True | _ => False) ∧ r.hi ≤ 0) ∨
@@ -266,7 +266,7 @@ theorem famT_inferFam (hl : ∀ s, (cfg.lower s).length = s.length) (hidem : ∀
   left := fun a b ha hb => (common_famT cfg sfh hl hidem _ a b ha hb).2.1
   right := fun a b ha hb => (common_famT cfg sfh hl hidem _ a b ha hb).2.2
   leaf := by
-    refine ⟨?_, ?_, ?_, ?_, ?_, ?_, ?_, ?_, ?_, ?_⟩ <;> (try intro _) <;> (unfold Ty.FamT; trivial)
+    refine ⟨?_, ?_, ?_, ?_, ?_, ?_, ?_, ?_, ?_, ?_, ?_⟩ <;> (try intro _) <;> (unfold Ty.FamT; trivial)
   typv := fun t h => ⟨by unfold Ty.FamT; exact h, cg_refl cfg sfh h⟩
   sens := fun t h => by unfold Ty.FamT; exact h
   arr0 := by unfold Ty.FamT; left; exact ⟨trivial, by simp⟩
